@@ -7,12 +7,10 @@
      secure_pow_mod       rug: panics unless exponent > 0 and modulus odd (used only then; pow_mod otherwise)
      * + -                exact
      %                    truncated remainder (sign of the dividend); panics on a zero divisor   *)
-From WS Require Import lib.Bytes lib.Res lib.BigPow.
+From WS Require Import lib.Bytes lib.Res.
 Local Open Scope Z_scope.
 
-(* DefaultBig: the num-bigint back end again, evaluated with the accelerated powmod_big; used by the
-   correspondence runner only (proofs/BigBackend.v: equal to Default everywhere) *)
-Inductive backend := Default | Fast | DefaultBig.
+Inductive backend := Default | Fast.
 
 (* square-and-multiply, so that the model runs; equal to b^e mod m (proofs/Bigint.v) *)
 Fixpoint powmod_pos (b : Z) (e : positive) (m : Z) : Z :=
@@ -29,7 +27,7 @@ Definition from_bytes_le (v : list N) : Z := le_to_Z v.
 Definition nbytes (z : Z) : nat := Z.to_nat (Z.log2 z / 8 + 1).
 Definition to_bytes_le (be : backend) (z : Z) : list N :=
   let a := Z.abs z in
-  if a =? 0 then match be with Fast => [] | _ => [0%N] end
+  if a =? 0 then match be with Default => [0%N] | Fast => [] end
   else Z_to_le (nbytes a) a.
 
 (* rug pow_mod(..).unwrap(): GMP mpz_powm; panics on a zero modulus; a negative exponent needs a
@@ -42,7 +40,6 @@ Definition modpow (be : backend) (b e m : Z) : nres Z :=
   | Default => if (m =? 0) || (e <? 0) then Panic else Ok (powmod b e m)
   | Fast => (* after the repair: secure_pow_mod only when its preconditions hold *)
             if (e <=? 0) || Z.even m then pow_mod_unwrap b e m else Ok (powmod b e m)
-  | DefaultBig => if (m =? 0) || (e <? 0) then Panic else Ok (powmod_big b e m)
   end.
 
 (* the pinned 0.7.0 fast-math body: secure_pow_mod unconditionally, which panics unless the
